@@ -342,4 +342,44 @@ def eval_simple_function(repo, cls, fn, argvals, depth=0):
             return UNK
         return None
     r = block(fn.body)
-    return K(None) if r is None else r
+    r = K(None) if r is None else r
+    if depth == 0 and r is UNK and all(isinstance(a, K) for a in argvals):
+        # outside this evaluator's statement forms (a table lookup, str.find, a loop, a helper): the abstract interpreter
+        # executes the method on the same constants
+        r2 = run_const(repo, cls, fn, [a.v for a in argvals])
+        if r2[0] == "ret":
+            return K(r2[1])
+        if r2[0] == "raise":
+            return RAISES
+    return r
+
+
+def run_const(repo, cls, fn, args, kwargs=None):
+    """abstract execution (sa/absint) of a method for constant arguments on a fresh object of `cls` (its constructor is
+    run first when it takes no arguments) -> ('ret', python value) | ('raise', text) | ('unknown', why)"""
+    from .absint import Interp, Obj, _Raise, Budget, NeedAtom, DomainGrew
+    it = Interp(repo, {}, {})
+    self_val = None
+    try:
+        if cls is not None:
+            k, init = repo.find_method(cls, "__init__")
+            if init is None or len(init.args.args) - len(init.args.defaults) <= 1:
+                self_val = it.construct(cls, [], {}, {"@module": cls.module, "@owner": None}, 0, None)
+            else:
+                self_val = ("obj", Obj(cls))
+        decs = [d.id for d in getattr(fn, "decorator_list", []) if isinstance(d, ast.Name)]
+        if "staticmethod" in decs:
+            self_val = None
+        elif "classmethod" in decs:
+            self_val = ("cls", cls)
+        v = it.call_function(fn, cls, self_val, [("c", a) for a in args], {k_: ("c", v_) for k_, v_ in (kwargs or {}).items()}, depth=0)
+    except _Raise as r:
+        return ("raise", getattr(r, "text", str(r)))
+    except (NeedAtom, Budget, DomainGrew) as x:
+        return ("unknown", "undecided test %s" % (x,))
+    v = it.force(v) if hasattr(it, "force") else v
+    if v[0] == "c":
+        return ("ret", v[1])
+    if v[0] == "list" and not (len(v) > 2 and v[2]) and all(x[0] == "c" for x in v[1]):
+        return ("ret", [x[1] for x in v[1]])
+    return ("unknown", "non-constant result %s" % (v,))
